@@ -1,4 +1,459 @@
-import BipVerif.Model.Basic
+/-
+C14 — only the documented exception family escapes.
+
+For every modelled entry point that has an error-kind theorem this file states the uniform
+corollary
+
+    entry args = .error e → e.documented = true
+
+(`Err.documented`: `ValueError` and subclasses, the checksum errors, the key errors, the path
+errors, `Bip44DepthError`).  In particular no `IndexError`, `KeyError`, `OverflowError`,
+`AssertionError`, third-party exception or modelling artefact (`.fuel`) comes out.  The proofs are the
+error-kind theorems of the other property modules and of `Lemmas/Escape.lean`; nothing is
+re-proved here.  Entries whose modelled bound (`.fuel`) cannot be excluded without a hash assumption
+are named `…_partial`; one `TypeError` entry is listed separately.
+-/
+import BipVerif.Props.C01
+import BipVerif.Props.C02
+import BipVerif.Props.C03
+import BipVerif.Props.C05
+import BipVerif.Props.C06
+import BipVerif.Props.C07
+import BipVerif.Props.C10Codec
+import BipVerif.Props.C11
+import BipVerif.Props.C13Wif
+import BipVerif.Props.C17
+import BipVerif.Lemmas.Escape
+
 namespace BipVerif.Props.C14
-theorem placeholder : True := trivial
+open BipVerif BipVerif.Prim BipVerif.Model BipVerif.Model.EscapeLemmas
+
+/-! ### the five documented classes -/
+
+theorem doc_value {e : Err} (h : e = .value) : e.documented = true := by subst h; rfl
+theorem doc_checksum {e : Err} (h : e = .checksum) : e.documented = true := by subst h; rfl
+theorem doc_key {e : Err} (h : e = .key) : e.documented = true := by subst h; rfl
+theorem doc_path {e : Err} (h : e = .path) : e.documented = true := by subst h; rfl
+theorem doc_depth {e : Err} (h : e = .depth) : e.documented = true := by subst h; rfl
+
+theorem doc_value_or_checksum {e : Err} (h : e = .value ∨ e = .checksum) :
+    e.documented = true := by
+  rcases h with rfl | rfl <;> rfl
+
+theorem doc_key_value_checksum {e : Err} (h : e = .key ∨ e = .value ∨ e = .checksum) :
+    e.documented = true := by
+  rcases h with rfl | rfl | rfl <;> rfl
+
+/-- what is *not* documented -/
+theorem undocumented_list (e : Err) :
+    e.documented = false ↔
+      e = .type ∨ e = .index ∨ e = .keyErr ∨ e = .overflow ∨ e = .attr ∨ e = .assert ∨
+        e = .thirdParty ∨ e = .oracleMiss ∨ e = .fuel := by
+  cases e <;> simp [Err.documented]
+
+/-- if `x` failed with `e'`, every error of `x` is `e'` -/
+theorem doc_of_eq {α} {x : R α} {e e' : Err} (hx : x = .error e') (hd : e'.documented = true)
+    (h : x = .error e) : e.documented = true := by
+  rw [hx] at h; cases h; exact hd
+
+/-! ## 1. mnemonics -/
+
+/-- `Bip39MnemonicDecoder.Decode`: `ValueError` / `MnemonicChecksumError` only -/
+theorem bip39_decode (H : Bytes → Bytes) (hH : ∀ x, (H x).length = 32) (langs : List (List Nat))
+    (hlangs : ∀ L ∈ langs, L.length ≤ 2048) (lang : Option (List Nat))
+    (hlang : ∀ L, lang = some L → L.length ≤ 2048) (ws : List Nat) (e : Err)
+    (h : bip39Decode H langs lang ws = .error e) : e.documented = true :=
+  doc_value_or_checksum (C01.decode_error_kinds H hH langs hlangs lang hlang ws e h)
+
+/-- `Bip39MnemonicEncoder.Encode` (2048-word list): `ValueError` only, the list index is in range -/
+theorem bip39_encode (H : Bytes → Bytes) (hH : ∀ x, (H x).length = 32) (wl : List Nat)
+    (hwl : wl.length = 2048) (ent : Bytes) (e : Err) (h : bip39Encode H wl ent = .error e) :
+    e.documented = true :=
+  doc_value (bip39Encode_error_kind H hH wl hwl h)
+
+/-- `MoneroMnemonicDecoder.Decode` -/
+theorem monero_decode (crc : Bytes → Nat) (langs : List (List Nat × Nat))
+    (lang : Option (List Nat × Nat)) (ws : List Nat) (e : Err)
+    (h : moneroDecode crc langs lang ws = .error e) : e.documented = true :=
+  doc_value_or_checksum (C17.monero_decode_errors crc langs lang ws e h)
+
+/-- `MoneroMnemonicEncoder.Encode*` (1626-word list) -/
+theorem monero_encode (crc : Bytes → Nat) (wl : List Nat) (k : Nat) (hlen : wl.length = 1626)
+    (ck : Bool) (ent : Bytes) (e : Err) (h : moneroEncode crc wl k ck ent = .error e) :
+    e.documented = true :=
+  doc_value (C17.monero_encode_errors crc wl k hlen ck ent e h).1
+
+/-- `ElectrumV1MnemonicDecoder.Decode` -/
+theorem electrumV1_decode (wl ws : List Nat) (e : Err) (h : electrumV1Decode wl ws = .error e) :
+    e.documented = true :=
+  doc_value (C17.v1_decode_errors wl ws e h)
+
+/-- `ElectrumV1MnemonicEncoder.Encode` -/
+theorem electrumV1_encode (wl : List Nat) (hpos : 0 < wl.length) (ent : Bytes) (e : Err)
+    (h : electrumV1Encode wl ent = .error e) : e.documented = true :=
+  doc_value (C17.v1_encode_errors wl hpos ent e h)
+
+/-- `AlgorandMnemonicDecoder.Decode` -/
+theorem algorand_decode (H : Bytes → Bytes) (langs : List (List Nat))
+    (hH : ∀ x, (H x).length = 32) (lang : Option (List Nat))
+    (hlang : ∀ l, lang = some l → l.length ≤ 2048) (hlangs : ∀ l ∈ langs, l.length ≤ 2048)
+    (ws : List Nat) (e : Err) (h : algoDecode H langs lang ws = .error e) : e.documented = true :=
+  doc_value_or_checksum (C17.algo_decode_errors H langs hH lang hlang hlangs ws e h)
+
+/-- `AlgorandMnemonicEncoder.Encode` -/
+theorem algorand_encode (H : Bytes → Bytes) (wl : List Nat) (hlen : wl.length = 2048)
+    (hH : ∀ x, (H x).length = 32) (ent : Bytes) (e : Err) (h : algoEncode H wl ent = .error e) :
+    e.documented = true :=
+  doc_value (C17.algo_encode_errors H wl hlen hH ent e h)
+
+/-- `ElectrumV2MnemonicDecoder.Decode` (word → index part) -/
+theorem electrumV2_decode (langs : List (List Nat)) (lang : Option (List Nat)) (ws : List Nat)
+    (e : Err) (h : electrumV2DecodeIdx langs lang ws = .error e) : e.documented = true :=
+  doc_value (C17.v2_decode_errors langs lang ws e h)
+
+/-- `ElectrumV2MnemonicEncoder.Encode` (entropy → words part) -/
+theorem electrumV2_encode (wl : List Nat) (hlen : wl.length = 2048) (ent : Bytes) (e : Err)
+    (h : electrumV2EncodeIdx wl ent = .error e) : e.documented = true :=
+  doc_value (C17.v2_encode_errors wl hlen ent e h).1
+
+/-- `MnemonicUtils.WordsToBytesChunk` (repaired arithmetic) -/
+theorem words_to_chunk (n a b c : Nat) (e : Err) (h : idxToChunk n a b c = .error e) :
+    e.documented = true :=
+  doc_value ((C17.idxToChunk_error n a b c e).1 h).1
+
+/-! ## 2. seed generators -/
+
+/-- `Bip39SeedGenerator`: the errors are the decoder's -/
+theorem bip39_seed (H : Bytes → Bytes) (hH : ∀ x, (H x).length = 32) (langs : List (List Nat))
+    (hlangs : ∀ L ∈ langs, L.length ≤ 2048) (lang : Option (List Nat))
+    (hlang : ∀ L, lang = some L → L.length ≤ 2048) (ws : List Nat) (salt : Bytes) (e : Err)
+    (h : bip39Seed H langs lang ws salt = .error e) : e.documented = true := by
+  cases hd : bip39Decode H langs lang ws with
+  | ok ent => rw [C02.seed_eq_kdf_definition H langs lang ws salt ent hd] at h; cases h
+  | error e' =>
+    rw [C02.invalid_no_seed H langs lang ws salt e' hd] at h
+    cases h
+    exact bip39_decode H hH langs hlangs lang hlang ws e hd
+
+/-- `SubstrateBip39SeedGenerator` -/
+theorem substrate_seed (H : Bytes → Bytes) (hH : ∀ x, (H x).length = 32)
+    (langs : List (List Nat)) (hlangs : ∀ L ∈ langs, L.length ≤ 2048) (lang : Option (List Nat))
+    (hlang : ∀ L, lang = some L → L.length ≤ 2048) (ws : List Nat) (salt : Bytes) (e : Err)
+    (h : substrateSeed H langs lang ws salt = .error e) : e.documented = true := by
+  cases hd : bip39Decode H langs lang ws with
+  | ok ent => rw [C02.substrate_seed_eq_kdf_definition H langs lang ws salt ent hd] at h; cases h
+  | error e' =>
+    rw [C02.substrate_invalid_no_seed H langs lang ws salt e' hd] at h
+    cases h
+    exact bip39_decode H hH langs hlangs lang hlang ws e hd
+
+/-- `ElectrumV1SeedGenerator` -/
+theorem electrumV1_seed (wl ws : List Nat) (e : Err) (h : electrumV1Seed wl ws = .error e) :
+    e.documented = true := by
+  cases hd : electrumV1Decode wl ws with
+  | ok ent => rw [C02.electrumV1_seed_eq_definition wl ws ent hd] at h; cases h
+  | error e' =>
+    rw [C02.electrumV1_invalid_no_seed wl ws e' hd] at h
+    cases h
+    exact electrumV1_decode wl ws e hd
+
+/-- `ElectrumV2SeedGenerator`: `ValueError` only -/
+theorem electrumV2_seed (valid : List Nat → Bool) (langs : List (List Nat))
+    (lang : Option (List Nat)) (ws : List Nat) (salt : Bytes) (e : Err)
+    (h : electrumV2Seed valid langs lang ws salt = .error e) : e.documented = true := by
+  by_cases hv : C02.V2Accepts valid ws
+  · cases hd : electrumV2DecodeIdx langs lang ws with
+    | ok ent =>
+      rw [C02.electrumV2_seed_eq_kdf_definition langs lang valid ws salt ent hv hd] at h; cases h
+    | error e' =>
+      rw [C02.electrumV2_invalid_no_seed langs lang valid ws salt e' hv hd] at h
+      cases h
+      exact electrumV2_decode langs lang ws e hd
+  · rw [C02.electrumV2_rejected_no_seed langs lang valid ws salt hv] at h
+    cases h; rfl
+
+/-! ## 3. extended keys, WIF -/
+
+/-- `Bip32KeyDeserializer.DeserializeKey`: key error, Base58 `ValueError`, checksum error -/
+theorem deserialize_key (H : Bytes → Bytes) (kv : KeyNetVer) (s : List Char) (e : Err)
+    (h : deserializeKey H kv s = .error e) : e.documented = true :=
+  doc_key_value_checksum (C05.deser_error_kinds H kv s e h)
+
+/-- `Bip32Base.FromExtendedKey` -/
+theorem from_extended_key (H : Bytes → Bytes) (c : CurveT) (sch : Scheme) (kv : KeyNetVer)
+    (s : List Char) (e : Err) (h : fromExtendedKey H c sch kv s = .error e) :
+    e.documented = true :=
+  doc_key_value_checksum (C05.fromExtendedKey_error_kinds H c sch kv s e h)
+
+/-- `Bip32KeySerializer`: within the ranges every node satisfies (depth < 256, index < 2³²)
+serialisation never fails (outside them `int.to_bytes` overflows — `C05.serializeKey_error_iff`) -/
+theorem serialize_key_total (H : Bytes → Bytes) (ver : Bytes) (depth : Nat) (fp : Bytes) (idx : Nat)
+    (cc key : Bytes) (hd : depth < 256) (hi : idx < 2 ^ 32) (e : Err) :
+    serializeKey H ver depth fp idx cc key ≠ .error e := by
+  intro h
+  exact ((C05.serializeKey_error_iff H ver depth fp idx cc key e).1 h).2 ⟨hd, hi⟩
+
+/-- `WifDecoder.Decode` -/
+theorem wif_decode (H : Bytes → Bytes) (s : List Char) (v : UInt8) (e : Err)
+    (h : wifDecode H s v = .error e) : e.documented = true :=
+  doc_value_or_checksum (C13Wif.wif_decode_errors H s v e h)
+
+/-- `WifEncoder.Encode` -/
+theorem wif_encode (H : Bytes → Bytes) (priv netVer : Bytes) (c : Bool) (e : Err)
+    (h : wifEncode H priv netVer c = .error e) : e.documented = true :=
+  doc_value (wifEncode_error h)
+
+/-! ## 4. paths -/
+
+/-- `Bip32PathParser.Parse`: `Bip32PathError` only -/
+theorem parse_path (s : List Char) (e : Err) (h : parsePath s = .error e) : e.documented = true :=
+  doc_path (C06.parse_error_kind s e h)
+
+/-- one path element -/
+theorem parse_path_elem (t : List Char) (e : Err) (h : parsePathElem t = .error e) :
+    e.documented = true :=
+  doc_path (parsePathElem_error t e h)
+
+/-- `SubstratePathParser.Parse`: `SubstratePathError` only -/
+theorem substrate_parse_path (s : List Char) (e : Err) (h : subParsePath s = .error e) :
+    e.documented = true :=
+  doc_path (subParsePath_error h)
+
+/-- `SubstratePathElem(elem)` -/
+theorem substrate_path_elem (t : List Char) (e : Err) (h : subElemOf t = .error e) :
+    e.documented = true :=
+  doc_path (subElemOf_error h)
+
+/-- an absolute path on a non-master node is refused with `ValueError` -/
+theorem derive_absolute_on_child (child : Node → Nat → R Node) (nd : Node) (p : List Nat)
+    (hd : nd.depth > 0) (e : Err)
+    (h : derivePathWith child nd { elems := p, absolute := true } = .error e) :
+    e.documented = true :=
+  doc_of_eq (C06.absolute_refused_on_child child nd p hd) rfl h
+
+/-! ## 5. master keys and child keys (SLIP-0010 / BIP-32) -/
+
+/-- `FromSeed`, SLIP-0010 ed25519 curves: `ValueError` only (the retry loop accepts at once) -/
+theorem master_ed25519 (c : CurveT) (hc : c = .ed25519 ∨ c = .ed25519Blake2b) (seed : Bytes)
+    (e : Err) (h : slip10Master c seed = .error e) : e.documented = true := by
+  rw [slip10Master_eq] at h
+  by_cases hl : seed.length < 16
+  · rw [if_pos hl] at h; cases h; rfl
+  · rw [if_neg hl, show (4096 : Nat) = 4095 + 1 from rfl, C03.masterLoop_ed25519 c hc 4095 seed] at h
+    replace h : nodeOfPriv c .slip10 (hmacSha512Halves (slip10HmacKey c) seed).1 0 0
+        (hmacSha512Halves (slip10HmacKey c) seed).2 [0, 0, 0, 0] = .error e := h
+    rcases nodeOfPriv_error _ _ _ _ _ _ _ _ h with ⟨he, _⟩ | ⟨he, _⟩
+    · exact doc_key he
+    · exact doc_value he
+
+/-- `FromSeed`, any curve.  **Partial**: for the ECDSA curves the model bounds the
+"`I_L` is not a valid key, hash again" loop by 4096 rounds and reports exhaustion as `.fuel`; that
+this never happens (`C03.masterLoop_error`: all 4096 iterates of HMAC-SHA512 would have to be
+rejected) is a property of the hash, not provable here.  Everything else is `ValueError`. -/
+theorem master_partial (c : CurveT) (seed : Bytes) (e : Err) (h : slip10Master c seed = .error e) :
+    e.documented = true ∨ e = .fuel := by
+  rcases C03.master_errors c seed e h with ⟨he, _⟩ | ⟨_, he | he⟩
+  · exact Or.inl (doc_value he)
+  · exact Or.inr he
+  · exact Or.inl (doc_value he)
+
+/-- SLIP-0010 ed25519: a non-hardened child of a private node is refused with the key error -/
+theorem child_ed25519_soft (nd : Node) (priv : Bytes) (idx : Nat) (hc : nd.curve.isEcdsa = false)
+    (hp : nd.priv = some priv) (hh : isHardened idx = false) (hi : idx < 2 ^ 32) (e : Err)
+    (h : slip10ChildKey nd idx = .error e) : e.documented = true :=
+  doc_of_eq (C03.ed25519_soft_refused nd priv idx hc hp hh hi) rfl h
+
+/-- a hardened child of a public-only node is refused with the key error (SLIP-0010 classes) -/
+theorem child_public_hardened (nd : Node) (idx : Nat) (hp : nd.priv = none)
+    (hh : isHardened idx = true) (hi : idx < 2 ^ 32) (e : Err)
+    (h : slip10ChildKey nd idx = .error e) : e.documented = true :=
+  doc_of_eq (C03.public_hardened_refused nd idx hp hh hi) rfl h
+
+/-- … and for every derivation scheme (Kholaw / Byron included) -/
+theorem child_public_hardened_any_scheme (nd : Node) (idx : Nat) (hp : nd.priv = none)
+    (hh : isHardened idx = true) (hi : idx < 2 ^ 32) (e : Err) (h : childKey nd idx = .error e) :
+    e.documented = true :=
+  doc_of_eq (C03.public_hardened_refused_any_scheme nd idx hp hh hi) rfl h
+
+/-- ed25519 has no public derivation at all -/
+theorem child_ed25519_public (nd : Node) (idx : Nat) (hc : nd.curve.isEcdsa = false)
+    (hp : nd.priv = none) (hi : idx < 2 ^ 32) (e : Err) (h : slip10ChildKey nd idx = .error e) :
+    e.documented = true :=
+  doc_of_eq (C03.ed25519_public_refused nd idx hc hp hi) rfl h
+
+/-- an index ≥ 2³² is refused with `ValueError` (the `Bip32KeyIndex` constructor) -/
+theorem child_index_range (nd : Node) (idx : Nat) (hi : 2 ^ 32 ≤ idx) (e : Err) :
+    (slip10ChildKey nd idx = .error e → e.documented = true) ∧
+      (childKey nd idx = .error e → e.documented = true) :=
+  ⟨doc_of_eq (C03.index_range nd idx hi).1 rfl, doc_of_eq (C03.index_range nd idx hi).2 rfl⟩
+
+/-- private ECDSA derivation never raises the key error; its only modelled failure is the bounded
+retry loop.  **Partial** for the same reason as `master_partial`: `.fuel` stands for "the SLIP-0010
+re-hash loop did not terminate within the modelled bound". -/
+theorem child_private_ecdsa_partial (nd : Node) (priv : Bytes) (idx : Nat)
+    (hc : nd.curve.isEcdsa = true) (e : Err) (h : slip10CkdPriv nd priv idx = .error e) :
+    e.documented = true ∨ e = .fuel :=
+  Or.inr (C03.ckdPriv_ecdsa_error nd priv idx hc e h)
+
+/-! ## 6. BIP-44 hierarchy -/
+
+/-- a step at the wrong level: `Bip44DepthError` -/
+theorem bip44_wrong_level (purpose coinIdx : Nat) (defPath : Path) (nd : Node) (op : B44Op)
+    (L : Nat) (hl : op.level = some L) (ht : op.typeOk = true) (hd : nd.depth ≠ L) (e : Err)
+    (h : b44Step purpose coinIdx defPath nd op = .error e) : e.documented = true :=
+  doc_of_eq (C07.step_level_error_uniform purpose coinIdx defPath nd op L hl ht hd) rfl h
+
+/-- the constructors (`FromSeed`, `FromExtendedKey`, … of `Bip44Base`) either accept the node or
+raise `Bip44DepthError` -/
+theorem bip44_ctor (nd : Node) (e : Err) (h : b44Admit nd = .error e) : e.documented = true := by
+  rcases C07.ctor_total nd with h' | h'
+  · rw [h'] at h; cases h
+  · exact doc_of_eq h' rfl h
+
+/-- public-only node, hardened level: key error -/
+theorem bip44_public_hardened (purpose coinIdx : Nat) (defPath : Path) (nd : Node)
+    (hp : nd.priv = none) (e : Err) :
+    (nd.depth = 0 → purpose < 2 ^ 32 →
+        b44Step purpose coinIdx defPath nd .purpose = .error e → e.documented = true) ∧
+    (nd.depth = 1 → coinIdx < 2 ^ 32 →
+        b44Step purpose coinIdx defPath nd .coin = .error e → e.documented = true) ∧
+    (∀ i, nd.depth = 2 → i < 2 ^ 32 →
+        b44Step purpose coinIdx defPath nd (.account i) = .error e → e.documented = true) := by
+  obtain ⟨h1, h2, h3⟩ := C07.step_public_hardened_refused purpose coinIdx defPath nd hp
+  exact ⟨fun hd hi => doc_of_eq (h1 hd hi) rfl, fun hd hi => doc_of_eq (h2 hd hi) rfl,
+    fun i hd hi => doc_of_eq (h3 i hd hi) rfl⟩
+
+/-- public-only node on a curve without public derivation: change / address steps raise the key error -/
+theorem bip44_public_no_pubderivation (purpose coinIdx : Nat) (defPath : Path) (nd : Node)
+    (op : B44Op) (idx : Nat) (hp : nd.priv = none) (hs : pubDerivationSupported nd = false)
+    (hidx : b44ChildIdx purpose coinIdx false op = some idx) (ht : op.typeOk = true)
+    (hl : op.level = some nd.depth) (hi : idx < 2 ^ 32) (e : Err)
+    (h : b44Step purpose coinIdx defPath nd op = .error e) : e.documented = true :=
+  doc_of_eq (C07.step_public_ed25519_refused purpose coinIdx defPath nd op idx hp hs hidx ht hl hi)
+    rfl h
+
+/-- an index ≥ 2³² at the right level: `ValueError` -/
+theorem bip44_index_range (purpose coinIdx : Nat) (defPath : Path) (nd : Node) (op : B44Op)
+    (idx : Nat) (hidx : b44ChildIdx purpose coinIdx (pubDerivationSupported nd) op = some idx)
+    (ht : op.typeOk = true) (hl : op.level = some nd.depth) (hi : 2 ^ 32 ≤ idx) (e : Err)
+    (h : b44Step purpose coinIdx defPath nd op = .error e) : e.documented = true :=
+  doc_of_eq (C07.step_index_out_of_range purpose coinIdx defPath nd op idx hidx ht hl hi) rfl h
+
+/-- **Not in the documented family**: `Change(x)` with `x` not a `Bip44Changes` member raises
+`TypeError` (this is what the docstring announces, but `TypeError` is outside the C14 family by
+definition; recorded so that the list of escaping classes is complete). -/
+theorem bip44_change_type_is_type_error (purpose coinIdx : Nat) (defPath : Path) (nd : Node)
+    (c : Nat) (hc : c > 1) (e : Err)
+    (h : b44Step purpose coinIdx defPath nd (.change c) = .error e) :
+    e = .type ∧ e.documented = false := by
+  rw [C07.step_change_type_error purpose coinIdx defPath nd c hc] at h
+  cases h; exact ⟨rfl, rfl⟩
+
+/-! ## 7. codecs -/
+
+/-- `Base58Decoder.Decode` (any alphabet): `ValueError` only -/
+theorem base58_decode (alph s : List Char) (e : Err) (h : b58Decode alph s = .error e) :
+    e.documented = true :=
+  doc_value (XK.b58Decode_error alph s e h)
+
+/-- `Base58Decoder.CheckDecode`: `ValueError` / `Base58ChecksumError` -/
+theorem base58_check_decode (H : Bytes → Bytes) (alph s : List Char) (e : Err)
+    (h : b58CheckDecode H alph s = .error e) : e.documented = true :=
+  doc_value_or_checksum (XK.b58CheckDecode_error H alph s e h)
+
+/-- `Base58XmrDecoder.Decode`: `ValueError` only -/
+theorem base58_xmr_decode (s : List Char) (e : Err) (h : xmrDecode s = .error e) :
+    e.documented = true :=
+  doc_value (xmrDecode_error h)
+
+/-- `Base32Decoder.Decode` (standard or custom alphabet): `ValueError` only -/
+theorem base32_decode (s : List Char) (custom : Option (List Char)) (e : Err)
+    (h : base32Decode s custom = .error e) : e.documented = true :=
+  doc_value (base32Decode_error h)
+
+/-- `Bech32BaseUtils._DecodeBech32` (all three flavours, any case oracle) -/
+theorem bech_decode_raw (U : CaseOracle) (k : BechKind) (s : List Char) (e : Err)
+    (h : bechDecodeRaw U k s = .error e) : e.documented = true :=
+  doc_value_or_checksum (bechDecodeRaw_error h)
+
+/-- `Bech32Decoder.Decode` -/
+theorem bech32_decode (U : CaseOracle) (hrp addr : List Char) (e : Err)
+    (h : bech32Decode U hrp addr = .error e) : e.documented = true :=
+  doc_value_or_checksum (bech32Decode_error h)
+
+/-- `SegwitBech32Decoder.Decode`: the `data[0]` read cannot raise `IndexError` (an accepted raw
+string has a non-empty data part) -/
+theorem segwit_decode (U : CaseOracle) (hrp addr : List Char) (e : Err)
+    (h : segwitDecode U hrp addr = .error e) : e.documented = true :=
+  doc_value_or_checksum (segwitDecode_error h)
+
+theorem segwit_decode_no_index_error (U : CaseOracle) (hrp addr : List Char) :
+    segwitDecode U hrp addr ≠ .error .index := by
+  intro h
+  rcases segwitDecode_error h with h | h <;> cases h
+
+/-- `BchBech32Decoder.Decode`: the `conv[0]` read cannot raise `IndexError` (regrouping a non-empty
+data part into bytes either fails with `ValueError` or yields at least one byte) -/
+theorem bch_decode (U : CaseOracle) (hrp addr : List Char) (e : Err)
+    (h : bchDecode U hrp addr = .error e) : e.documented = true :=
+  doc_value_or_checksum (bchDecode_error h)
+
+theorem bch_decode_no_index_error (U : CaseOracle) (hrp addr : List Char) :
+    bchDecode U hrp addr ≠ .error .index := by
+  intro h
+  rcases bchDecode_error h with h | h <;> cases h
+
+/-- `SS58Decoder.Decode` -/
+theorem ss58_decode (H : Bytes → Bytes) (s : List Char) (e : Err)
+    (h : ss58Decode H s = .error e) : e.documented = true :=
+  doc_value_or_checksum (C10Codec.ss58_decode_errors H s e h)
+
+/-- `SS58Encoder.Encode` -/
+theorem ss58_encode (H : Bytes → Bytes) (data : Bytes) (fmt : Nat) (e : Err)
+    (h : ss58Encode H data fmt = .error e) : e.documented = true :=
+  doc_value (ss58Encode_error h)
+
+/-- `SubstrateScaleCUintEncoder.Encode`: `ValueError` only — none of the four `int.to_bytes`
+calls can overflow -/
+theorem scale_compact (v : Nat) (e : Err) (h : scaleCompact v = .error e) : e.documented = true :=
+  doc_value (scaleCompact_error_kind h)
+
+theorem scale_compact_no_overflow (v : Nat) : scaleCompact v ≠ .error .overflow := by
+  intro h
+  cases scaleCompact_error_kind h
+
+/-- `SubstrateScaleUintEncoder` (fixed width): `ValueError` only -/
+theorem scale_uint (v n : Nat) (e : Err) (h : scaleUint v n = .error e) : e.documented = true :=
+  doc_value (scaleUint_error_kind h)
+
+/-- `SubstrateScaleBytesEncoder.Encode` -/
+theorem scale_bytes (b : Bytes) (e : Err) (h : scaleBytes b = .error e) : e.documented = true :=
+  doc_value (scaleBytes_error_kind h)
+
+/-- `SubstratePathElem.ChainCode()`: `SubstratePathError` (number wider than 256 bits) or
+`ValueError` -/
+theorem substrate_chain_code (el : SubElem) (e : Err) (h : subChainCode el = .error e) :
+    e.documented = true := by
+  rcases subChainCode_error h with h | h
+  · exact doc_path h
+  · exact doc_value h
+
+/-- `CborIndefiniteLenArrayDecoder.Decode` over the integer `loads`: `ValueError` only — the scan
+index strictly increases, so the modelled fuel (length + 1) is never exhausted -/
+theorem cbor_indef_decode (enc : Bytes) (e : Err)
+    (h : cborIndefDecode cborLoadsUint enc = .error e) : e.documented = true :=
+  doc_value (cborIndefDecode_error cborLoadsUint (fun _ _ he => cborLoadsUint_error he) h)
+
+theorem cbor_indef_decode_no_fuel (enc : Bytes) :
+    cborIndefDecode cborLoadsUint enc ≠ .error .fuel := by
+  intro h
+  cases cborIndefDecode_error cborLoadsUint (fun _ _ he => cborLoadsUint_error he) h
+
+/-- the same for any item decoder whose own errors are documented: nothing new is introduced by
+the loop -/
+theorem cbor_indef_decode_any (loads : Bytes → R CborItem)
+    (hl : ∀ b e, loads b = .error e → e = .value) (enc : Bytes) (e : Err)
+    (h : cborIndefDecode loads enc = .error e) : e.documented = true :=
+  doc_value (cborIndefDecode_error loads hl h)
+
 end BipVerif.Props.C14
